@@ -176,6 +176,17 @@ CLAIMS['C29'] = dict(
     design='3/C29', note='Order dependence that flows through an intermediate container filled in address order, std::hash<std::string>-ordered containers and the multi-job '
                          'multiset clause (C15) are not decided.')
 
+CLAIMS['C26'] = dict(
+    technique='static analysis: sink discipline (XML markup only through tinyxml2::XMLPrinter calls, SARIF only through picojson values), operand classification of every printer '
+              'call, writer/schema agreement between the attribute and element names the writer can push and the RELAX NG grammar (parsed as XML), set inclusion of documented '
+              'template fields in the substituted ones',
+    text='Decides that ErrorMessage::toXML/getXMLHeader return printer output with no markup built by string concatenation; that every string operand pushed into the XML is '
+         'sanitised by fixInvalidChars, numeric, an enum name or a literal (file/file0/origfile are raw: known findings; id and symbol text: undecided, tabled); that every element, '
+         'attribute and severity value the writer can emit is declared by cppcheck-errors.rng and every required attribute is written unconditionally; that SarifReport::serialize '
+         'returns the serialisation of a picojson value and no run-time text is concatenated with JSON-structure literals; and that every {field} documented in the help text is '
+         'replaced by ErrorMessage::toString.',
+    design='3/C26', note='That each finding is rendered exactly once and that the three formats carry the same finding sets is not decided.')
+
 NOT_APPLICABLE = {
     'C01': 'soundness of inferred values vs. concrete executions of arbitrary programs; needs an executing/symbolic oracle, no structural necessary condition in valueflow.cpp',
     'C02': 'same as C01, for container sizes',
